@@ -23,7 +23,7 @@ ViewOK(o) ==
   /\ o.room = LRoom(s, 0)                                   \* room_left is exact
 Check(pre, ev) ==
   IF PROP = "C05" THEN ~ev.panic
-  ELSE IF ev.panic THEN TRUE
+  ELSE IF ev.panic THEN FALSE          \* C20 specifies the result of every operation: not returning one is a mismatch
   ELSE IF ev.op = "fill_sample"
        THEN /\ FillOK(pre, ev.samples, Pairs(ev.inp), Pairs(ev.out))
             /\ StOf(ev) = pre /\ ViewOK(ev.obs)
